@@ -121,6 +121,8 @@ type Exec struct {
 	initState *State
 	initAllocT map[int]types.Type
 	initDone map[int]bool
+	dumpDone map[*ssa.Global]bool
+	constMem map[[2]uint64]*Term
 	nextInit int
 	unfolded map[string]bool
 	splits   []*Term
@@ -272,7 +274,16 @@ func (x *Exec) load(st *State, ptr []*Term, t types.Type, pos token.Pos) []*Term
 	mt := memTagsOf(t)
 	for i, s := range ss {
 		h := x.heapOf(st, s)
-		out[i] = Select(Select(h, BVAdd(blk, BV(int64(mt[i]), 32))), BVAdd(off, BV(int64(mo[i]), 64)))
+		cb := BVAdd(blk, BV(int64(mt[i]), 32))
+		co := BVAdd(off, BV(int64(mo[i]), 64))
+		// read-only package data with known content: use the value itself
+		if cb.Op == "const" && co.Op == "const" && len(x.constMem) > 0 {
+			if v, ok := x.constMem[[2]uint64{cb.U64(), co.U64()}]; ok && v.S == s {
+				out[i] = v
+				continue
+			}
+		}
+		out[i] = Select(Select(h, cb), co)
 	}
 	x.typeInv(st, t, out)
 	return x.normPtrs(st, t, out)
@@ -514,8 +525,12 @@ func (x *Exec) constBytes(st *State, s string) (blk *Term) {
 		base := x.baseHeap[BV8]
 		_ = h
 		inner := Select(base, BV(int64(id), 32))
+		if x.constMem == nil {
+			x.constMem = map[[2]uint64]*Term{}
+		}
 		for i := 0; i < len(s); i++ {
 			x.assume(True(), Eq(Select(inner, BV(int64(i), 64)), BV(int64(s[i]), 8)))
+			x.constMem[[2]uint64{uint64(id), uint64(i)}] = BV(int64(s[i]), 8)
 		}
 	}
 	return BV(int64(id), 32)
@@ -937,6 +952,9 @@ func (x *Exec) value(fr *Frame, st *State, v ssa.Value) Val {
 		id := x.globalBlk(c)
 		if !x.initMode && !x.initHavoc[c] {
 			x.assumeInitBlock(id, c.Type().Underlying().(*types.Pointer).Elem())
+		}
+		if !x.initMode && x.initHavoc[c] {
+			x.assumeDump(c, id)
 		}
 		return Val{C: []*Term{BV(int64(id), 32), BV(0, 64)}}
 	case *ssa.Builtin:
